@@ -6,6 +6,7 @@
 (*  "uf"     one ufunc call  np.<name>[.method](operands, **kw)  on space  *)
 (*           elements:  case = the configuration record of UfuncMachine,   *)
 (*           name, dt (operand dtype), dtk (dtype keyword or "none"),      *)
+(*           odt (dtype of the out object or "none"),                      *)
 (*           per output k:  rkind, rshape, rdtype  (observed),             *)
 (*                          ref_shape, ref_dtype   (the SAME call on the   *)
 (*                          raw ndarrays: NumPy is the oracle the property *)
@@ -51,7 +52,7 @@ UfClauses(e) ==
       exps == ResShape(c.method, c.shapes, c.axis, c.keepdims, Len(c.idx))
       nout == Len(e.ref_shape)
       spec == (IF \E k \in 1..nout : e.ref_shape[k] # exps THEN {"spec-vs-numpy-shape"} ELSE {})
-              \cup (IF e.exact = 1 /\ ResDType(e.name, e.case.method, e.dt, e.dtk) # e.ref_dtype[1]
+              \cup (IF e.exact = 1 /\ ResDTypeOut(e.name, e.case.method, e.dt, e.dtk, e.odt) # e.ref_dtype[1]
                       THEN {"spec-vs-numpy-dtype"} ELSE {})
   IN
   IF spec # {} THEN spec
